@@ -317,17 +317,24 @@ pub fn render_integer(
 	caps: bool,
 ) {
 	debug_assert!(iv >= 0.0, "render_integer receives sign using arg");
-	let iv = iv.floor() as i64;
+	// The value may be far outside of the i64 range (`%d` of 1e100), so the digits are
+	// taken from the float itself: it is an integer, which makes both ways below exact.
+	let iv = iv.floor();
 	// Digit char indexes in reverse order, i.e
 	// for radix = 16 and n = 12f: [15, 2, 1]
-	let digits = if iv == 0 {
+	let digits = if iv == 0.0 {
 		vec![0u8]
+	} else if radix == 10 {
+		format!("{iv:.0}").bytes().rev().map(|b| b - b'0').collect()
 	} else {
-		let mut v = iv.abs();
+		// Radix is a power of two: remainder and division of an integral float are exact
+		let radix = radix as f64;
+		let mut v = iv;
 		let mut nums = Vec::with_capacity(1);
-		while v != 0 {
-			nums.push((v % radix) as u8);
-			v /= radix;
+		while v != 0.0 {
+			let digit = v % radix;
+			nums.push(digit as u8);
+			v = (v - digit) / radix;
 		}
 		nums
 	};
@@ -349,7 +356,7 @@ pub fn render_integer(
 	}
 
 	out.reserve(zp2 as usize);
-	if iv != 0 {
+	if iv != 0.0 {
 		out.push_str(zero_prefix);
 	}
 	for _ in 0..zp2 {
